@@ -36,7 +36,7 @@ PROPS = [("prop_a", True), ("a-b", True), ("name", False), ("Label", False), ("_
          # property names that happen to be yes/no words: names, not truth values
          ("yes", True), ("No", True), ("TRUE", True), ("false", True), ("true", True),
          ("\u00d1and\u00fa", True), ("\u00c0-\u00d6]p", False)]
-SHAPES = ["literal", "ref", "ref-in-group", "smart-quotes"]
+SHAPES = ["literal", "ref", "ref-in-group", "smart-quotes", "truth-words"]
 PLACEMENTS = ["none", "top", "group", "repeat", "on-group", "repeat>group", "group>repeat", "group>group", "on-repeat", "repeat>repeat>group", "or-other-select"]
 
 
@@ -50,6 +50,9 @@ def expr(shape, what):
         # typographic quotes as a word processor or a spreadsheet's autocorrect leaves them: straightened like on every other sheet
         return {"entity_id": "\u2018abc-123\u2019", "create_if": "\u201cy\u201d = \u201cy\u201d", "update_if": "1 = 1 or \u2018a\u2019 = \u2018b\u2019",
                 "label": "concat(\u2018L\u2019, \u201cx\u201d)"}[what]
+    if shape == "truth-words":
+        # the conditions written the way every logic column of the survey sheet accepts them: yes / TRUE (also what a boolean spreadsheet cell is read as)
+        return {"entity_id": "'abc-123'", "create_if": "TRUE", "update_if": "yes", "label": "concat('L', 'x')"}[what]
     if shape == "literal":
         return {"entity_id": "'abc-123'", "create_if": "true()", "update_if": "1 = 1", "label": "concat('L', 'x')"}[what]
     ref = "${q1}" if shape == "ref" else "${gq}"
@@ -125,13 +128,15 @@ def expected_reject(combo, placement, dataset_ok, prop_ok=True):
 
 
 def ref_paths(shape):
-    return {"literal": None, "ref": "/data/q1", "ref-in-group": "/data/g1/gq"}[shape]
+    return {"literal": None, "ref": "/data/q1", "ref-in-group": "/data/g1/gq", "truth-words": None}.get(shape)
 
 
 def subst(e, shape):
     """Expected attribute value after reference substitution."""
     if shape == "smart-quotes":
         return e.replace("\u2018", "'").replace("\u2019", "'").replace("\u201c", '"').replace("\u201d", '"')
+    if shape == "truth-words":
+        return {"TRUE": "true()", "yes": "true()"}.get(e, e)
     p = ref_paths(shape)
     if p is None:
         return e
